@@ -103,7 +103,8 @@ def simple_field(draw, names, depth):
         return [s], v
     if kind == "lenbuf":
         ls, lv = draw(int_field(names, plain=True, nlen=draw(st.sampled_from([1, 2]))))
-        data = draw(st.binary(min_size=0, max_size=9))
+        data = draw(st.one_of(st.binary(min_size=0, max_size=9), st.binary(min_size=0, max_size=9),
+                              st.binary(min_size=250, max_size=255) if ls["len"] == 1 else st.binary(min_size=250, max_size=600)))
         name = names.new("d")
         return [ls, {"k": "buf", "name": name, "lenfrom": ls["name"]}], {ls["name"]: len(data), name: data}
     if kind == "optional":
@@ -215,7 +216,7 @@ def envelope(draw, names, depth, allow_tail=True, static_only=False):
         if tk_ == "buf":
             name = names.new("t")
             specs.append({"k": "buf", "name": name, "len": 0})
-            vals[name] = draw(st.binary(max_size=12))
+            vals[name] = draw(st.one_of(st.binary(max_size=12), st.binary(max_size=12), st.binary(min_size=240, max_size=700)))
         elif tk_ == "seq":
             item, items = draw(seq_items(names, depth - 1))
             name = names.new("q")
